@@ -22,7 +22,7 @@ jobs_list+=("mutants/fix-D1-suback-failure.patch C01 -R" "mutants/fix-D1-suback-
 jobs_list+=("mutants/fix-D2-ack-success-props.patch C01 -R" "mutants/fix-D2-ack-success-props.patch C02 -R" "mutants/fix-D2-ack-success-props.patch C09 -R" "mutants/fix-D2-ack-success-props.patch C11 -R")
 jobs_list+=("mutants/fix-D3-filter-plus.patch C16 -R" "mutants/fix-D3-filter-plus.patch C04 -R" "mutants/fix-D3-filter-plus.patch C20 -R" "mutants/fix-D3-filter-plus.patch C12 -R")
 jobs_list+=("mutants/fix-D4-poll-empty-body.patch C04 -R" "mutants/fix-D6-oversize-props.patch C02 -R")
-for d in seeded/C*/; do id=$(basename "$d"); jobs_list+=("$d/patch.diff $id"); done
+for d in seeded/C*/; do id=$(basename "$d"); jobs_list+=("$d/patch.diff ${id:0:3}"); done
 i=0
 for j in "${jobs_list[@]}"; do
   run1 $j &
